@@ -959,6 +959,14 @@ def r10_solver_state(ctx):
               detail=shared or [norm(c)[:60] for c in built])
 
 
+def r11_tables_intact(ctx):
+    """The meaning of a unit string is fixed by the tables only as long as nothing but a (successful, scoped)
+    registration changes them: do/undo pairing and undo-on-failure of the one writer (shared with C09.R2/R3)."""
+    from . import C09 as _C09
+    _C09.r2_pairing(ctx)
+    _C09.r3_undo_on_failure(ctx)
+
+
 RULES = [
     ("C03.R1", "atom parser residual-text discipline: anchored number pattern; anchored exponent suffix; longest table suffix as unit; the remainder is exactly a prefix (whole-string membership) or empty, otherwise an error; no single-character truncation", r1_atom_parser),
     ("C03.R3", "exponent bookkeeping under * and /: present key => old +/- exp, absent key => +/- exp; factors * and /; siblings agree", r3_exponent_algebra),
@@ -968,5 +976,6 @@ RULES = [
     ("C03.R7", "renderer/reader agreement: multiplication symbol, exponent alphabet, fraction symbol; no table symbol contains structural characters", r7_render_read),
     ("C03.R8", "table well-formedness; unique spellings; longest-suffix parsing recovers every admissible (prefix, unit) spelling", r8_tables),
     ("C03.R9", "dimension vectors: component-wise + - * / neg over DIMENSION_LIST, equality over every component, list positions = dimension order", r9_dimensions),
+    ("C03.R11", "the unit tables are changed only by a registration that records exactly what it added and removes exactly that (shared with C09.R2/R3)", r11_tables_intact),
     ("C03.R10", "a unit string is parsed independently of earlier (possibly rejected) ones: fresh solver per call and empty buffers per solve (shared with C02.R1)", r10_solver_state),
 ]
